@@ -867,11 +867,45 @@ func (m *fullMon) c13TTLDelete(c *APICall, now time.Time) {
 		return
 	}
 	j := pre.(*execution.Job)
+	if j.DeletionTimestamp != nil {
+		return // already being deleted: the call has no effect
+	}
 	m.stat("mon.c13.ttl_deletes")
-	fin := j.Status.Condition.Finished
-	if fin == nil {
-		m.v("C13/delete-unfinished", "job controller deleted %s which is not finished", fmtJob(j))
-		return
+	// The controller decides from its in-memory status, which may be one write ahead
+	// of the API object. Ground truth: a Job that may be cleaned up has no live task.
+	var finish time.Time
+	if fin := j.Status.Condition.Finished; fin != nil {
+		finish = fin.FinishTimestamp.Time
+	} else {
+		if !isStarted(j) && !hasAdmissionError(j) {
+			m.v("C13/delete-unfinished", "job controller deleted %s which was never started and is not finished", fmtJob(j))
+			return
+		}
+		for _, p := range m.t.podsOfJob(string(j.UID)) {
+			if !podTerminal(p) {
+				m.v("C13/delete-unfinished", "job controller deleted %s which is not finished (Pod %s is alive, phase %s)", fmtJob(j), p.Name, p.Status.Phase)
+				return
+			}
+		}
+		// earliest instant the controller may take as finish time: the latest true end of a task.
+		for _, pc := range m.t.podCreates[string(j.UID)] {
+			if tr := m.w.Kubelet.ByUID[pc.uid]; tr != nil {
+				var e time.Time
+				switch {
+				case tr.Finished != nil:
+					e = *tr.Finished
+				case tr.Gone != nil:
+					e = *tr.Gone
+				}
+				if e.After(finish) {
+					finish = e
+				}
+			}
+		}
+		finish = finish.Truncate(time.Second)
+		if len(m.t.podCreates[string(j.UID)]) == 0 && j.Spec.KillTimestamp != nil {
+			finish = j.Spec.KillTimestamp.Time
+		}
 	}
 	syncStart := c.SyncStart
 	if syncStart.IsZero() {
@@ -888,12 +922,12 @@ func (m *fullMon) c13TTLDelete(c *APICall, now time.Time) {
 			ttl = *j.Spec.TTLSecondsAfterFinished
 		}
 		ttlSeen = ttl
-		if !now.Before(fin.FinishTimestamp.Add(time.Duration(ttl) * time.Second)) {
+		if !now.Before(finish.Add(time.Duration(ttl) * time.Second)) {
 			ok = true
 		}
 	}
 	if !ok {
-		m.v("C13/ttl-early", "job controller deleted %s at %s, finished %s, effective TTL %ds", fmtJob(j), fmtT(now), fmtT(fin.FinishTimestamp.Time), ttlSeen)
+		m.v("C13/ttl-early", "job controller deleted %s at %s, finished %s, effective TTL %ds", fmtJob(j), fmtT(now), fmtT(finish), ttlSeen)
 	}
 }
 
@@ -1011,8 +1045,10 @@ func (m *fullMon) fixpoint() {
 		}
 		// --- kill (C12)
 		if kt := j.Spec.KillTimestamp; kt != nil && !kt.Time.After(now) && isStarted(j) && j.DeletionTimestamp == nil {
+			// force deletion is only demanded when it was enabled under every dynamic
+			// configuration of the run (a config change does not wake Jobs up).
 			forceOff := dyn.Jobs.ForceDeleteTaskTimeoutSeconds == nil || *dyn.Jobs.ForceDeleteTaskTimeoutSeconds <= 0 ||
-				(j.Spec.Template != nil && j.Spec.Template.ForbidTaskForceDeletion)
+				(j.Spec.Template != nil && j.Spec.Template.ForbidTaskForceDeletion) || len(m.t.dynHist) > 1
 			stuckOK := false
 			for _, p := range m.t.podsOfJob(string(j.UID)) {
 				if podTerminal(p) {
@@ -1043,17 +1079,17 @@ func (m *fullMon) fixpoint() {
 		// --- deletion completes (C13)
 		if j.DeletionTimestamp != nil {
 			alive := 0
-			stuckOK := false
-			forceOff := dyn.Jobs.ForceDeleteTaskTimeoutSeconds == nil || *dyn.Jobs.ForceDeleteTaskTimeoutSeconds <= 0 ||
-				(j.Spec.Template != nil && j.Spec.Template.ForbidTaskForceDeletion)
+			stuckOK := true
 			for _, ref := range j.Status.Tasks {
 				if po := api.Peek(ResPods, j.Namespace, ref.Name); po != nil {
 					p := po.(*corev1.Pod)
 					if r := metav1.GetControllerOf(p); r != nil && r.UID == j.UID {
 						alive++
+						// a task on a dead node whose deletion was requested is as far as a
+						// deleting Job has to go (the statement does not demand force deletion here)
 						tr := m.w.Kubelet.ByUID[string(p.UID)]
-						if tr != nil && tr.Script.TermMs < 0 && p.Spec.NodeName != "" && forceOff {
-							stuckOK = true
+						if !(tr != nil && tr.Script.TermMs < 0 && p.Spec.NodeName != "" && p.DeletionTimestamp != nil) {
+							stuckOK = false
 						}
 					}
 				}
